@@ -31,6 +31,15 @@ def _heat(F, G, s):
         return float(heat(np.array(F, dtype=float).reshape(-1, 2), np.array(G, dtype=float).reshape(-1, 2), sigma=s))
 
 
+def _heat_typed(F, G, s, form):
+    """the same diagrams handed over as integer arrays / nested lists of ints (integer-valued diagrams only)"""
+    from persim import heat
+    conv = {"int": lambda X: np.array(X, dtype=int).reshape(-1, 2), "list": lambda X: [[int(a), int(b)] for a, b in X], "float": lambda X: np.array(X, dtype=float).reshape(-1, 2)}
+    with warnings.catch_warnings():
+        warnings.simplefilter("ignore")
+        return float(heat(conv[form[0]](F), conv[form[1]](G), sigma=s))
+
+
 def _rand_dgm(rng, n, scale=1.0, lattice=False):
     out = []
     for _ in range(n):
@@ -66,6 +75,22 @@ def _standin(rep, tier, seed):
             continue
         if abs(d * d - max(want_sq, 0.0)) > acc + 1e-9 * abs(want_sq):
             rep.violation("heat^2 = %r but k(F,F)+k(G,G)-2k(F,G) = %r" % (d * d, want_sq), "heat:value", {"input": inp, "observed": d, "expected_squared": want_sq})
+        if it % 6 == 0:
+            # integer-valued diagrams in every representation (int arrays, lists of ints, mixed with float arrays): same value
+            Fi = [[float(rng.randint(0, 4)), 0.0] for _i in range(rng.randint(1, 4))]
+            Fi = [[b, b + rng.randint(0, 3)] for b, _d in Fi]
+            Gi = [[float(rng.randint(0, 4)), 0.0] for _i in range(rng.randint(1, 4))]
+            Gi = [[b, b + rng.randint(1, 3)] for b, _d in Gi]
+            wsq = max(_sq_oracle(Fi, Gi, s), 0.0)
+            acc_i = 64 * 2.3e-16 * (len(Fi) + len(Gi) + 1) ** 2 / (8 * math.pi * s)
+            for form in (("int", "int"), ("int", "float"), ("float", "int"), ("list", "list")):
+                dt = _heat_typed(Fi, Gi, s, form)
+                evals += 1
+                distinct.add(("typed", form))
+                if dt != dt or abs(dt * dt - wsq) > acc_i + 1e-9 * abs(wsq):
+                    rep.violation("heat of integer-valued diagrams given as %s/%s = %r but sqrt(k(F,F)+k(G,G)-2k(F,G)) = %r (F=%s, G=%s, sigma=%s)" % (form[0], form[1], dt, math.sqrt(wsq), Fi, Gi, s),
+                                  "heat:value:typed", {"input": {"dgm1": Fi, "dgm2": Gi, "sigma": s, "forms": list(form)}, "observed": dt, "expected_squared": wsq})
+                    break
         # reordering of the same multiset
         if F:
             Fp = F[:]
